@@ -242,6 +242,10 @@ func genConcPlan(prop string, seed uint64, thorough bool) *Plan {
 				case 0:
 					items = append(items, cmdItem("CLIENT", g.pick("INFO", "LIST")))
 				default:
+					if g.chance(2) {
+						// (an EXEC that may be aborted by what the others do meanwhile)
+						items = append(items, cmdItem("WATCH", g.key()))
+					}
 					items = append(items, cmdItem("MULTI"))
 					for q := g.r.IntN(3); q > 0; q-- {
 						items = append(items, Item{Args: bs(g.concCmd(tk)...)})
@@ -414,6 +418,14 @@ func genConcTxPlan(prop string, seed uint64, thorough bool) *Plan {
 			}
 			if g.chance(2) {
 				add(g.concCmd(tk)...)
+			}
+			if g.chance(5) {
+				// what an EXEC (run or aborted) leaves behind in the connection must
+				// not change how its later commands take their locks
+				if g.chance(2) {
+					add("SELECT", g.pick("0", "1"))
+				}
+				add(g.pick("FLUSHALL", "FLUSHALL", "FLUSHDB"))
 			}
 		}
 		items = append(items, Item{Op: "barrier", N: 2})
